@@ -138,6 +138,7 @@ class Generator:
         self.cov_loop = {i: set() for i in self.loops}
         self.kinds = {}
         self.picked = {}
+        self.force = {}             # field id -> value (boundary cases: a count at its capacity)
         self.k = 0
 
     # ---- leaf values
@@ -177,6 +178,8 @@ class Generator:
         r = self.rng
         use = self.uses.get(f['id'])
         k = node[0]
+        if f['id'] in self.force:
+            return self.force[f['id']]
         if k == 'int':
             w = node[1]
             hi = 10 ** w - 1
@@ -278,7 +281,7 @@ class Generator:
     def _once(self, cel):
         import tables_tre as T
         self.big_used = False
-        self.budget = 9000 if self.attempt < 30 else 10 ** 6      # a layout whose fixed part alone exceeds the budget still gets payloads
+        self.budget = 9000 if (self.attempt < 30 and not self.force) else 10 ** 6      # a layout whose fixed part alone exceeds the budget still gets payloads
         flags = {'raises': set(), 'dups': set()}
         val = self.rec(self.tree, {T.CEL: cel}, flags)
         return val, flags
